@@ -324,6 +324,9 @@ def check(run):
     C04_proof.prove_canonical_checks(run)
     from props import C04_kernel
     guarded(run, C04_kernel.prove)
+    # variational compression: every local update is the projection of O|psi> onto the current frames of the guess (Engine S, recorded at _update_mps)
+    from props import C04_varcomp_sym
+    guarded(run, C04_varcomp_sym.prove)
     seeds = [run.seed] if run.tier == "quick" else [run.seed, run.seed + 1]
     ns = [1, 2, 3, 4] if run.tier == "quick" else [1, 2, 3, 4, 5]
     cases = [(name, n, s, run.tier) for name in ("spin", "spinqn", "spin2qn", "holstein", "multi") for n in ns for s in seeds
